@@ -49,6 +49,7 @@ type childRun struct {
 	res   c17drv.ChildResult
 	races []c17drv.RaceReport
 	err   error
+	crash string // stderr of a child killed by the Go runtime ("fatal error: concurrent map writes")
 	wall  time.Duration
 }
 
@@ -101,6 +102,14 @@ func runChild(c *core.Ctx, job c17drv.Job) *childRun {
 	select {
 	case err := <-done:
 		if err != nil {
+			if strings.Contains(errBuf.String(), "fatal error: concurrent map") {
+				// the runtime's own detector of unsynchronised map access killed the child:
+				// an observation on the real code, like a race report
+				cr.crash = errBuf.String()
+				cr.races, _ = c17drv.ParseRaceLogs(racePrefix)
+				cr.wall = time.Since(t0)
+				return cr
+			}
 			cr.err = fmt.Errorf("child: %v: %s", err, kit.FirstLines(errBuf.String(), 8))
 		}
 	case <-time.After(4 * time.Minute):
@@ -169,13 +178,31 @@ func parsePairs(c *core.Ctx, raws []json.RawMessage) []c17drv.Pair {
 
 var reRejected = regexp.MustCompile(`C17-REJECTED-EPISODE", (\d+)`)
 
-// validateHistories checks the episodes with TLC; it returns the rejected ones.
+// validateHistories checks the episodes with TLC (four chunks in parallel); it
+// returns the number of accepted episodes and the rejected ones.
 func validateHistories(c *core.Ctx, eps []c17drv.Episode) (accepted int, rejected []c17drv.Episode) {
+	const chunks = 4
+	var mu sync.Mutex
+	core.ParallelFor(chunks, chunks, func(k int) {
+		lo, hi := k*len(eps)/chunks, (k+1)*len(eps)/chunks
+		if lo == hi {
+			return
+		}
+		a, r := validateChunk(c, eps[lo:hi], k)
+		mu.Lock()
+		accepted += a
+		rejected = append(rejected, r...)
+		mu.Unlock()
+	})
+	return
+}
+
+func validateChunk(c *core.Ctx, eps []c17drv.Episode, chunk int) (accepted int, rejected []c17drv.Episode) {
 	rest := eps
 	round := 0
 	for len(rest) > 0 {
 		round++
-		file := filepath.Join(c.Tmp, fmt.Sprintf("c17-hist-%d.ndjson", round))
+		file := filepath.Join(c.Tmp, fmt.Sprintf("c17-hist-%d-%d.ndjson", chunk, round))
 		evs := make([]any, len(rest))
 		for i := range rest {
 			evs[i] = rest[i]
@@ -184,8 +211,8 @@ func validateHistories(c *core.Ctx, eps []c17drv.Episode) (accepted int, rejecte
 			c.Broken("cannot write history file: %v", err)
 			return
 		}
-		ok, res := kit.ValidateTrace(c, specName+"_Trace.tla", specName+"_Trace.cfg", file, tlc.Options{DFS: true, Timeout: 5 * time.Minute})
-		if c.IsBroken() {
+		ok, res := kit.ValidateTrace(c, specName+"_Trace.tla", specName+"_Trace.cfg", file, tlc.Options{DFS: true, Timeout: 6 * time.Minute})
+		if res == nil || c.IsBroken() {
 			return
 		}
 		if ok {
@@ -205,7 +232,7 @@ func validateHistories(c *core.Ctx, eps []c17drv.Episode) (accepted int, rejecte
 		accepted += k - 1
 		rejected = append(rejected, rest[k-1])
 		rest = rest[k:]
-		if len(rejected) >= 5 {
+		if len(rejected) >= 2 {
 			return
 		}
 	}
@@ -234,10 +261,25 @@ func writerOf(r c17drv.RaceReport) string {
 	return strings.Join(w, "|")
 }
 
-func raceFailures(c *core.Ctx, runs []*childRun) (reports int, pairs map[string]int) {
+func raceFailures(c *core.Ctx, runs []*childRun, onlyPair ...string) (reports int, pairs map[string]int) {
 	pairs = map[string]int{}
 	first := map[string]bool{}
 	for _, cr := range runs {
+		if cr.crash != "" {
+			fn := c17drv.FirstCedarFunc(cr.crash)
+			job := cr.job
+			job.Out = ""
+			reports++
+			pairs["fatal:"+fn]++
+			if !first["fatal:"+fn] {
+				first["fatal:"+fn] = true
+				c.Fail(core.Failure{
+					Signature: map[string]string{"spec": specName, "race": "runtime concurrent map access|" + fn, "writer": fn},
+					Detail:    "the Go runtime aborted the stress child: " + kit.FirstLines(cr.crash, 3),
+					Scenario:  scenario{Kind: "race", Job: &job, Race: "fatal:" + fn, Report: kit.FirstLines(cr.crash, 40)},
+				})
+			}
+		}
 		for _, r := range cr.races {
 			reports++
 			if !r.InCedar() {
@@ -245,6 +287,9 @@ func raceFailures(c *core.Ctx, runs []*childRun) (reports int, pairs map[string]
 				continue
 			}
 			p := r.Pair()
+			if len(onlyPair) > 0 && onlyPair[0] != p {
+				continue
+			}
 			writer := writerOf(r)
 			pairs[p]++
 			if first[p] {
@@ -300,7 +345,7 @@ func replay(c *core.Ctx) bool {
 			}
 			c.Eval(fmt.Sprintf("replay/%d", try), true)
 			if sc.Kind == "race" {
-				raceFailures(c, []*childRun{cr})
+				raceFailures(c, []*childRun{cr}, sc.Race)
 			} else {
 				functionalFailures(c, []*childRun{cr}, nil)
 			}
@@ -324,6 +369,18 @@ func functionalFailures(c *core.Ctx, runs []*childRun, rerun func(job c17drv.Job
 				if _, ok := kinds[f.Kind]; !ok {
 					kinds[f.Kind] = f.Detail
 				}
+			}
+			envProblem := ""
+			for k, d := range kinds {
+				for _, pat := range []string{"deadline exceeded", "i/o timeout", "connection refused", "too many open files", "cannot assign requested address"} {
+					if strings.Contains(d, pat) {
+						envProblem = k + ": " + d
+					}
+				}
+			}
+			if envProblem != "" {
+				c.Broken("phase %s hit an environment limit, not a property violation: %s", phase, envProblem)
+				continue
 			}
 			if phase == "handshake_seq" {
 				c.Broken("sequential baseline handshakes fail (driver or environment problem): %v", kinds)
@@ -385,16 +442,30 @@ func run(c *core.Ctx) {
 		return
 	}
 
+	// development aid (never set by the registered commands): VERIF_C17_PHASES=mc,cache,net,hist
+	only := map[string]bool{}
+	if v := os.Getenv("VERIF_C17_PHASES"); v != "" {
+		for _, p := range strings.Split(v, ",") {
+			only[p] = true
+		}
+		c.Set("partial_run", v)
+		c.Assume("PARTIAL RUN (VERIF_C17_PHASES=" + v + "): not a verdict on the property")
+	}
+	want := func(p string) bool { return len(only) == 0 || only[p] }
+
 	// 1. the lock model
-	cfgs := []string{"MC_C17_quick.cfg"}
+	cfgs := []string{"MC_C17_quick.cfg", "MC_C17_handshake.cfg"}
 	if c.Thorough() {
-		cfgs = []string{"MC_C17_quick.cfg", "MC_C17_core.cfg", "MC_C17_cmd.cfg"}
+		cfgs = []string{"MC_C17_quick.cfg", "MC_C17_handshake.cfg", "MC_C17_cmd.cfg", "MC_C17_core.cfg"}
 	}
 	var mcwg sync.WaitGroup
 	mcwg.Add(1)
 	go func() {
 		defer mcwg.Done()
 		for _, cfg := range cfgs {
+			if !want("mc") {
+				return
+			}
 			if kit.ModelCheck(c, specName+".tla", cfg, tlc.Options{Workers: 12, Timeout: 8 * time.Minute}) == nil {
 				return
 			}
@@ -416,10 +487,10 @@ func run(c *core.Ctx) {
 
 	// 3. stress children (the same binary, race log per child)
 	seed := c.Seed
-	pairMs, stressMs, episodes, clients, iters, conns := 70, 1500, 120, 12, 6, 6
+	pairMs, stressMs, episodes, clients, iters, conns := 70, 1500, 300, 12, 6, 6
 	procs := []int{2, 4, 16}
 	if c.Thorough() {
-		pairMs, stressMs, episodes, clients, iters, conns = 400, 20000, 600, 24, 12, 12
+		pairMs, stressMs, episodes, clients, iters, conns = 400, 20000, 1500, 24, 12, 12
 		procs = []int{1, 2, 3, 4, 8, 16}
 	}
 	half := (len(pairs) + 1) / 2
@@ -433,12 +504,18 @@ func run(c *core.Ctx) {
 		if c.Thorough() {
 			ps = pairs
 		}
-		jobs = append(jobs,
-			c17drv.Job{Phases: []string{"pairs", "stress"}, Seed: seed*31 + int64(i), Procs: p, Yield: y, Pairs: ps, PairMs: pairMs, StressMs: stressMs, StressG: 2 * p},
-			c17drv.Job{Phases: []string{"handshake_seq", "handshake", "duplex"}, Seed: seed*37 + int64(i), Procs: p, Yield: !y, Clients: clients, Iters: iters, Conns: conns},
-		)
+		if want("cache") {
+			jobs = append(jobs, c17drv.Job{Phases: []string{"pairs", "stress"}, Seed: seed*31 + int64(i), Procs: p, Yield: y, Pairs: ps, PairMs: pairMs, StressMs: stressMs, StressG: 2 * p})
+		}
+		if want("net") {
+			jobs = append(jobs, c17drv.Job{Phases: []string{"handshake_seq", "handshake", "duplex"}, Seed: seed*37 + int64(i), Procs: p, Yield: !y, Clients: clients, Iters: iters, Conns: conns})
+		}
 	}
-	jobs = append(jobs, c17drv.Job{Phases: []string{"hist"}, Seed: seed, Procs: 4, Episodes: episodes})
+	if want("hist") {
+		// histories: half of the episodes focus on one conflicting pair of the model each
+		jobs = append(jobs, c17drv.Job{Phases: []string{"hist"}, Seed: seed, Procs: 4, Episodes: episodes / 2, Pairs: pairs},
+			c17drv.Job{Phases: []string{"hist"}, Seed: seed + 7777, Procs: 8, Yield: true, Episodes: episodes - episodes/2, Pairs: pairs})
+	}
 	runs := runChildren(c, jobs, 4)
 	mcwg.Wait()
 	if c.IsBroken() {
@@ -450,6 +527,9 @@ func run(c *core.Ctx) {
 	for _, cr := range runs {
 		if cr.err != nil {
 			c.Broken("stress child (phases %v): %v", cr.job.Phases, cr.err)
+			continue
+		}
+		if cr.crash != "" {
 			continue
 		}
 		if !cr.res.RaceEnabled {
@@ -476,6 +556,9 @@ func run(c *core.Ctx) {
 	}
 	if c.IsBroken() {
 		return
+	}
+	if !want("net") {
+		handshakes, resumed, fresh, msgs = 1, 1, 1, 1
 	}
 	if handshakes == 0 || resumed == 0 || fresh == 0 {
 		c.Broken("handshake stress is vacuous: %d handshakes, %d resumed, %d fresh", handshakes, resumed, fresh)
